@@ -29,16 +29,16 @@ let bf : ZZ.t fld = {
   o = bfe_ops; w = 1;
   of_vals = (fun l -> bfe_new (List.hd l));
   to_vals = (fun x -> [bfe_value x]);
-  ntt = stub_ntt bfe_ops bfe_ops bb_act;
-  intt = stub_intt bfe_ops bfe_ops bb_act;
+  ntt = ntt_b;
+  intt = intt_b;
   enc = bfe_enc; dec = bfe_dec;
 }
 let xf : xfe fld = {
   o = xfe_ops; w = 3;
   of_vals = (fun l -> match l with [a; b; c] -> ((bfe_new a, bfe_new b), bfe_new c) | _ -> failwith "xfe");
   to_vals = (fun ((a, b), c) -> [bfe_value a; bfe_value b; bfe_value c]);
-  ntt = stub_ntt bfe_ops xfe_ops xb_act;
-  intt = stub_intt bfe_ops xfe_ops xb_act;
+  ntt = ntt_x;
+  intt = intt_x;
   enc = xfe_enc; dec = xfe_dec;
 }
 
@@ -126,7 +126,7 @@ let has_stored_zeros (g : string list) = match g with d :: _ -> snd (storage d) 
 (* ------------------------------------------------------------------ printing / comparison *)
 let show_se (a : se) = String.concat " " (Array.to_list (Array.map zs a))
 let show_sp (a : sp) = String.concat " " (string_of_int (Array.length a) :: Array.to_list (Array.map show_se a))
-let short s = if String.length s <= 400 then s else String.sub s 0 400 ^ "..."
+let short s = if String.length s <= 20000 then s else String.sub s 0 20000 ^ "..."
 let model_sp (f : 'f fld) (l : 'f list) : sp = sp_norm (Array.of_list (List.map (fun c -> Array.of_list (f.to_vals c)) l))
 let model_list (f : 'f fld) (l : 'f list) : se array = Array.of_list (List.map (fun c -> Array.of_list (f.to_vals c)) l)
 (* model polynomial result (None = panic) against the spec polynomial *)
